@@ -140,7 +140,7 @@ def main(ctx):
         ctx.require("outcome_" + k)
     for ph in ("started", "idle", "connecting", "connected", "handshaked", "joined"):
         ctx.require("stop_" + ph)
-    for k in ("exhausted_observed", "success_observed", "main_error_observed", "fw_tx", "fw_aio",
+    for k in ("exhausted_observed", "success_observed", "fw_tx", "fw_aio",
               "attempts_websocket", "attempts_rawsocket", "fatal_classified", "first_attempt_undelayed",
               "retry_waits_checked", "wait_at_cap", "jitter_draws", "sessions_with_all_listeners",
               "horizon_truncated", "unlimited_retries_configs", "replayed_for_determinism",
@@ -177,6 +177,7 @@ def judge(cfg, obs, fw, stats=None):
     def bump(k, n=1):
         st[k] = st.get(k, 0) + n
     atts = [a for a in obs["attempts"] if a["outcome"] is not None]
+    unplayed = [a for a in obs["attempts"] if a["outcome"] is None][:1]
     mainflag = "main" if cfg["main"] else "nomain"
     # waits
     seq = []
@@ -188,6 +189,8 @@ def judge(cfg, obs, fw, stats=None):
             prev_end = None
         elif prev_end is not None:
             prev_end = max(prev_end, a["t_end"])
+    for a in unplayed:
+        seq.append((a["idx"], None, None if prev_end is None else round(a["t"] - prev_end, 9)))
     stopped = obs["stopped"]
     cut = None
     if stopped:
@@ -200,10 +203,13 @@ def judge(cfg, obs, fw, stats=None):
         tidx = p[3] if len(p) > 3 else None
         out.append(("C14|%s|%s|%s|%s|%s" % (clause, shape, mainflag, _tt(cfg, tidx), fw), detail))
     done = obs["done"]
-    # ---- stop(): result ok, exactly once
+    seq_bad = bool(out)
+    # ---- stop(): result ok  (only if everything up to the stop was in order: first divergence)
     if stopped:
         ph = stopped[0]
-        if not done:
+        if seq_bad:
+            pass
+        elif not done:
             out.append(("C14|stop-done-missing|%s|%s|%s|%s" % (ph, mainflag, _tt(cfg, _cur_idx(atts, stopped)), fw),
                         "stop() called in phase %s of attempt %d at t=%s: start() result never completed" % (
                             ph, stopped[1], stopped[2])))
@@ -213,30 +219,33 @@ def judge(cfg, obs, fw, stats=None):
                             ph, stopped[1], done[0])))
         else:
             bump("stop_success_observed")
+        if obs["stop_result"] and obs["stop_result"].startswith("raised") and not seq_bad:
+            out.append(("C14|stop-raised|%s|%s|%s|%s" % (ph, mainflag, _tt(cfg, _cur_idx(atts, stopped)), fw),
+                        "stop() called in phase %s of attempt %d %s" % (ph, stopped[1], obs["stop_result"])))
         later = [a for a in obs["attempts"] if a["n"] >= cut]
         if later:
             bump("attempts_after_stop", len(later))
             bump("executions_with_attempts_after_stop")
     # ---- exactly once
-    how = ("after-stop-" + stopped[0]) if stopped else ("after-" + (atts[-1]["outcome"] if atts else "start"))
+    how = ("stop-" + stopped[0]) if stopped else "nostop"
     real = [d for d in obs["done_calls"] if d[2] == "done"]
     ghost = [d for d in obs["done_calls"] if d[2] == "none"]
     if len(done) > 1 or len(real) > 1:
         out.append(("C14|done-twice|double-complete|%s|%s|%s" % (how, mainflag, fw),
                     "the future returned by start() was completed %d times: %r" % (len(real), obs["done_calls"])))
-    elif ghost:
+    elif ghost and not seq_bad:
         out.append(("C14|done-twice|complete-after-done|%s|%s|%s" % (how, mainflag, fw),
                     "after the start() result had completed (%r) the component tried to complete it again "
                     "(%s at t=%s on the already cleared future -> AttributeError in a reactor/loop callback)" % (
                         done[:1], ghost[0][0], ghost[0][1])))
-    if done and not stopped:
+    if done and not stopped and not seq_bad:
         n_at_done = done[0][3]
         late = [a for a in obs["attempts"] if a["n"] >= n_at_done]
         if late:
             out.append(("C14|attempt-after-done|%s|%s|%s|%s" % (done[0][0], mainflag, _tt(cfg, late[0]["idx"]), fw),
                         "attempt %d on transport %d was started after the start() result had completed with %r" % (
                             late[0]["n"], late[0]["idx"], done[0])))
-    # ---- internal errors
+    # ---- internal errors (reported when nothing else explains the execution)
     errs = list(obs["escapes"]) + list(obs["logged"]) + list(obs["loop_errors"]) + list(obs.get("late_errors", []))
     seen = set()
     for e in errs:
@@ -244,10 +253,15 @@ def judge(cfg, obs, fw, stats=None):
             continue        # the same defect as done-twice|complete-after-done
         if e.startswith("log: Unhandled error in Deferred"):
             continue        # header line of the failure that follows
+        if "Task was destroyed but it is pending" in e:
+            continue        # artefact of tearing down an execution cut by the horizon
         name = e.split(":", 1)[0]
         if name in seen:
             continue
         seen.add(name)
+        bump("internal_errors_seen")
+        if out:
+            continue
         out.append(("C14|escape|%s|%s|%s|%s" % (name, how, mainflag, fw),
                     "an exception escaped to the reactor / loop exception handler / unhandled-error log: %s" % e))
     # ---- listeners
@@ -282,8 +296,6 @@ def judge(cfg, obs, fw, stats=None):
             bump("exhausted_observed")
         if done and done[0][0] == "ok" and not stopped:
             bump("success_observed")
-        if done and done[0][0] == "err" and atts and atts[-1]["outcome"] == "main_raises":
-            bump("main_error_observed")
     if any(f[1] for f in obs["fatal_calls"]):
         bump("fatal_classified")
     bump("jitter_draws", len(obs["jitter_calls"]))
@@ -356,13 +368,14 @@ def job(a):
     def on_exec(choices, trace, obs):
         cnt["n"] += 1
         stats["fw_" + fw] += 1
+        stats["execs_family_" + a["fam"]] = stats.get("execs_family_" + a["fam"], 0) + 1
         for k in range(1, len(choices) + 1):
             nodes.add(hash(tuple(choices[:k])))
         probs = judge(cfg, obs, fw, stats)
         hist = tuple(x["outcome"] for x in obs["attempts"] if x["outcome"])
         if (len(hist) >= 2 or any(x["joined_at"] is not None for x in obs["attempts"])):
             histories.add((hist, tuple(obs["stopped"][:2]) if obs["stopped"] else None))
-        recheck = bool(probs) or cnt["n"] % 97 == 1
+        recheck = cnt["n"] % 61 == 1 or any(persig.get(sig, 0) < 2 for sig, _ in probs)
         if recheck:
             obs2 = execute(cfg, alphabet, stop, Chooser(choices))
             stats["replayed_for_determinism"] = stats.get("replayed_for_determinism", 0) + 1
